@@ -11,6 +11,7 @@ RULE = ('pairs (file tree, runtime tree) over a 5-name space incl. look-alikes, 
         'existing file path as emdpath / foreign root under an emdpath, root metadata sets over 3 names; plus sequences of 2-4 appends; plus '
         'look-alike paths (sibling names a / ab / abc, a node named like its root) x every file path as emdpath; plus an inner node with an '
         'emdpath naming a file node below it / a target the runtime tree lacks / a target off its path, every mode and tree flag; '
+        'plus append-over of a data node (3 classes) by a same-layout node carrying fewer metadata entries than the file node; '
         'non-trivial = distinct cases in which the append returned normally and the file changed')
 MODELLED = ['payload templates with content tokens', 'group paths as lists of names (the source computes them as strings; look-alike paths are generated on purpose)']
 ASSUMPTIONS = ['valid, sibling-distinct names; runtime trees well formed (C12)']
@@ -144,6 +145,22 @@ def cases(seed, tier):
                   'emdpath': '/'.join(['r'] + list(ep))},
                  {'op': 'read', 'file': 0, 'tree': True, 'emdpath': 'r'}]
         out.append({'tops': [ft, rt], 'steps': steps, 'kind': 'D'})
+    # append-over of a data node by a node of the same class and layout that carries LESS than the file node (no metadata of its
+    # own, or fewer entries): the file node ends up as the runtime node is, the old entries are gone
+    for i in range(max(6, n // 40)):
+        cls = ['Array', 'PointList', 'PointListArray'][i % 3]
+        fa = nd('a', [nd('k', cls='Array')] if i % 2 else [], cls=cls)
+        fa['mds'] = [['m1', T.fresh_tok()], ['m2', T.fresh_tok()]]
+        ft = {'cls': 'Root', 'name': 'r', 'tok': 0, 'rank': 0, 'mds': [], 'kids': [fa, nd('b')]}
+        rt = copy.deepcopy(ft)
+        ra = rt['kids'][0]
+        ra['tok'] = T.fresh_tok()
+        ra['mds'] = [] if i % 4 < 2 else [['m2', T.fresh_tok()]]
+        tp = [[], ['a']][(i // 3) % 2]
+        steps = [{'op': 'save', 'file': 0, 'top': 0, 'tp': [], 'mode': 'w', 'tree': True},
+                 {'op': 'save', 'file': 0, 'top': 1, 'tp': tp, 'mode': modes_ao[i % len(modes_ao)], 'tree': [True, False, None][(i // 2) % 3] if tp else True},
+                 {'op': 'read', 'file': 0, 'tree': True, 'emdpath': 'r'}]
+        out.append({'tops': [ft, rt], 'steps': steps, 'kind': 'M'})
     return out
 
 
